@@ -31,13 +31,18 @@ SHARD = 24
 RULE = ("one scenario = 1-5 stations (continuous or finite-rate EVSEs, shuffled names, mixed voltages / phase angles), "
         "0-3 constraints with mixed-sign coefficients, 1-9 non-overlapping sessions (back-to-back stays, arrival ties across "
         "stations), scheduler in {uncontrolled, scripted multi-period, sorted FCFS/EDF/LLF/LRPT with distinct keys}; "
-        "40% of the sorted scenarios use estimate_max_rate with a SimpleRampdown estimator and chargers below the pilot; 9 runs per scenario (deep-copied clone run beside the live original, stored-and-reloaded before the run, interrupted-and-resumed, original, stations permuted, constraints permuted, sessions permuted, shifted by k, other "
+        "40% of the sorted scenarios use estimate_max_rate with a SimpleRampdown estimator and chargers below the pilot (no arrival in "
+        "period 0 there: open known finding rampdown-period0-shift); 9 runs per scenario (deep-copied clone run beside the live original, stored-and-reloaded before the run, interrupted-and-resumed, original, stations permuted, constraints permuted, sessions permuted, shifted by k, other "
         "PYTHONHASHSEED); every 5th scenario is a single-phase site (equal phase angles) with a feeder row of ones over all "
         "stations and tighter 0/1 pod rows that bind, every 7th a three-phase site with binding constraints; stream 2: in-process sequences A, <unrelated / re-wired sites with the same ids>, A on three-phase "
         "sites with binding constraints and sorted schedulers - the second run of A must equal the first exactly; "
         "each run is one correspondence case; distinct = distinct (scenario, variant); cases in which a "
         "feasibility or fully-charged decision is within 1e-6 / 1e-9 of its threshold are skipped as float-ambiguous")
-ASSUMPTIONS = ["exact rational arithmetic in the model; values compared to 1e-9 relative",
+ASSUMPTIONS = ["open known finding rampdown-period0-shift (replayed on the real code on every run): with a SimpleRampdown estimator a "
+               "session arriving in period 0 is ramped down one period later than the same session shifted by k >= 1; the "
+               "generator therefore lets nobody arrive in period 0 in its `rampdown` scenarios - exactly that input class and "
+               "nothing else; every other difference between a shifted and an unshifted run is reported",
+               "exact rational arithmetic in the model; values compared to 1e-9 relative",
                "sessions at one station do not overlap (otherwise plugin raises StationOccupiedError) and arrival < departure",
                "in the correspondence the sorted schedulers' emitted schedules are recorded and replayed as a scripted oracle "
                "(their equivariance is the theorem C10_sorted_equivariant about Model/Sorted.v, tied to the code by C07/C08); "
@@ -137,7 +142,8 @@ def add_options(rng, sc):
                 x["maxp"] = 3.25           # on-board charger well below the pilot: the estimator lowers its bound
             # nobody arrives in period 0: on the unchanged tree Interface.last_applied_pilot_signals returns {} in period 1
             # (`if i > 0` with i = iteration - 1), so a session arriving at 0 is ramped down one period later than the same
-            # session arriving at k >= 1 - reported finding "rampdown-period-zero", not encoded here
+            # session arriving at k >= 1 - OPEN KNOWN FINDING rampdown-period0-shift (replay_known); this exclusion is exactly
+            # that input class
             x["arrival"] += 1
             x["departure"] += 1
     sc["opts"] = o
@@ -879,6 +885,43 @@ def monitor(case):
     if any(b for t, b in x["warn"] if t < k) or \
             ([[t + k, b] for t, b in o["warn"]] != [[t, b] for t, b in x["warn"] if t >= k] and not amb_any):
         return "shift: infeasibility warnings differ: %r vs %r" % (o["warn"], x["warn"])
+    return None
+
+
+KNOWN_RAMPDOWN = "rampdown-period0-shift"
+
+
+def replay_known(entry):
+    """open finding rampdown-period0-shift: the witness (one EVSE, one EV arriving in period 0 whose on-board charger takes
+    far less than the pilot, FCFS with a SimpleRampdown estimator) is run unshifted and shifted by k on the real code; returns
+    what fails while the shifted pilots are not the unshifted ones delayed by k periods, None once it no longer reproduces"""
+    if entry.get("sig") != KNOWN_RAMPDOWN:
+        return "not re-checked"
+    from datetime import datetime
+    from acnportal.acnsim import Simulator, EventQueue, PluginEvent, ChargingNetwork
+    from acnportal.acnsim.models import EV, EVSE, Battery
+    from acnportal.algorithms import SortedSchedulingAlgo, first_come_first_served, SimpleRampdown
+    w = entry["witness"]
+
+    def run(k):
+        net = ChargingNetwork()
+        net.register_evse(EVSE(w["evse"]["id"], max_rate=w["evse"]["max_rate"]), w["evse"]["voltage"], w["evse"]["phase"])
+        e = w["ev"]
+        ev = EV(e["arrival"] + k, e["departure"] + k, e["energy"], w["evse"]["id"], "s0",
+                Battery(e["capacity"], e["init"], e["max_power"]))
+        alg = SortedSchedulingAlgo(first_come_first_served, estimate_max_rate=True, max_rate_estimator=SimpleRampdown())
+        sim = Simulator(net, alg, EventQueue([PluginEvent(ev.arrival, ev)]), datetime(2021, 1, 1), period=w["period"], verbose=False)
+        sim.run()
+        return [float(x) for x in sim.pilot_signals[0, :sim.iteration]]
+    with warnings.catch_warnings():
+        warnings.simplefilter("ignore")
+        base = run(0)
+        for k in w.get("shifts", [1]):
+            got = run(k)
+            want = [0.0] * k + base
+            if len(got) != len(want) or any(not close(a, b) for a, b in zip(got, want)):
+                return "shift by %d: pilots %s, the unshifted run delayed by %d periods is %s" % (
+                    k, [round(x, 3) for x in got[:k + 4]], k, [round(x, 3) for x in want[:k + 4]])
     return None
 
 
